@@ -61,6 +61,55 @@ def _bip(l, r, bits, fi, skeleton=None):
     return _roundtrip(B, 'bipartite', fi)
 
 
+def _complete_bip(l, r, fi):
+    """the complete bipartite graph class (what the construction `complete L R` returns) keeps no edge list of its own:
+    every writer must still write all L*R edges"""
+    from cnfgen.graphs import CompleteBipartiteGraph
+    B = CompleteBipartiteGraph(l, r)
+    fmt = FORMATS['bipartite'][fi]
+    buf = io.StringIO()
+    writeGraph(B, buf, 'bipartite', fmt)
+    H = readGraph(io.StringIO(buf.getvalue()), 'bipartite', fmt)
+    return (H.left_order(), H.right_order(), sorted(H.edges())) == (l, r, [(u, v) for u in range(1, l + 1) for v in range(1, r + 1)])
+
+
+def h_e_rt_complete_bip(l: int, r: int, fi: int) -> bool:
+    """
+    pre: 0 <= l <= 4 and 0 <= r <= 4 and 0 <= fi <= 3
+    post: _
+    """
+    return untraced(_complete_bip, pick(l, 0, 4), pick(r, 0, 4), pick(fi, 0, 3))
+
+
+COMMENTS = [[], ['c one comment'], ['c first', 'c second'], ['c e 1 2', 'c p edge 9 9', 'c 3'], ['c', 'c', 'c 1 : 2 0']]
+
+
+def _read_write_read(src, ci, typ_i, fo):
+    """a graph read from a file with comment lines (they become its name) can be written in any format and read back"""
+    typ = ['simple', 'digraph', 'dag'][typ_i]
+    cm = COMMENTS[ci]
+    if src == 0:
+        text = '\n'.join(cm + ['p edge 3 2', 'e 1 2', 'e 2 3']) + '\n'
+        fmt_in = 'dimacs'
+    else:
+        text = '\n'.join(cm + ['3', '1 : 0', '2 : 1 0', '3 : 2 0']) + '\n'
+        fmt_in = 'kthlist'
+    G = readGraph(io.StringIO(text), typ, fmt_in)
+    fmt = FORMATS[typ][fo]
+    buf = io.StringIO()
+    writeGraph(G, buf, typ, fmt)
+    H = readGraph(io.StringIO(buf.getvalue()), typ, fmt)
+    return _views(H, typ) == _views(G, typ) and G.number_of_vertices() == 3 and len(list(G.edges())) == 2
+
+
+def h_e_read_write_read(src: int, ci: int, typ_i: int, fo: int) -> bool:
+    """
+    pre: 0 <= src <= 1 and 0 <= ci <= 4 and 0 <= typ_i <= 2 and 0 <= fo <= 3
+    post: _
+    """
+    return untraced(_read_write_read, pick(src, 0, 1), pick(ci, 0, 4), pick(typ_i, 0, 2), pick(fo, 0, 3))
+
+
 def _write_mutate_write(typ_i, bits, f1, f2, how):
     """the file describes the graph as it is when it is written: write, change the graph, write again, read back"""
     typ = ['simple', 'digraph', 'bipartite'][typ_i]
